@@ -68,8 +68,46 @@ def evaluate(s, env, funcs=None):
     return _ev(parse_expr(s), look, fn)
 
 
-def _ev(n, look, fn):
+def conditioning(s, env, rel=1e-13):
+    """largest relative change of the value of `s` when every variable, pi, E and every non-integer literal is changed
+    by a relative `rel` (alternating signs, both orientations); inf if a perturbed evaluation leaves the real domain.
+    Used to reject strings whose floating-point value is not determined by the arithmetic they denote
+    (sqrt(sin(pi)), cos(u*sinh(2.5^4)))."""
+    tree = parse_expr(s)
+    base = float(_ev(tree, lambda n: env[n] if n in env else CONSTS[n], dict(FUNCS)))
+    worst = 0.0
+    for sgn in (1.0, -1.0):
+        counter = [0]
+
+        def jit(v):
+            counter[0] += 1
+            return v * (1.0 + sgn * rel * (1 if counter[0] % 2 else -1))
+
+        def look(n):
+            return jit(env[n] if n in env else CONSTS[n])
+        try:
+            with np.errstate(all='ignore'):
+                v = float(_ev(tree, look, dict(FUNCS), jit))
+        except (ZeroDivisionError, OverflowError, ValueError, TypeError):
+            return float('inf')
+        if not math.isfinite(v):
+            return float('inf')
+        worst = max(worst, abs(v - base) / max(1.0, abs(base)))
+    return worst
+
+
+def _ev(n, look, fn, jit=None):
+    v = _ev0(n, look, fn, jit)
+    if jit is not None and isinstance(n, (ast.BinOp, ast.Call)) and isinstance(v, (float, np.floating)) \
+            and math.isfinite(v) and v != int(v):
+        v = jit(v)     # conditioning estimate: every intermediate result moves as well
+    return v
+
+
+def _ev0(n, look, fn, jit=None):
     if isinstance(n, ast.Constant):
+        if jit is not None and isinstance(n.value, float) and n.value != int(n.value):
+            return jit(n.value)
         return n.value
     if isinstance(n, ast.Name):
         if n.id in CONSTS:
@@ -79,7 +117,7 @@ def _ev(n, look, fn):
                 return CONSTS[n.id]
         return look(n.id)
     if isinstance(n, ast.BinOp):
-        a, b = _ev(n.left, look, fn), _ev(n.right, look, fn)
+        a, b = _ev(n.left, look, fn, jit), _ev(n.right, look, fn, jit)
         op = type(n.op)
         if op is ast.Add:
             return a + b
@@ -100,7 +138,7 @@ def _ev(n, look, fn):
             return a ** b
         raise ValueError(f'unsupported operator {op.__name__}')
     if isinstance(n, ast.UnaryOp):
-        v = _ev(n.operand, look, fn)
+        v = _ev(n.operand, look, fn, jit)
         if isinstance(n.op, ast.USub):
             return -v
         if isinstance(n.op, ast.UAdd):
@@ -110,17 +148,17 @@ def _ev(n, look, fn):
         name = n.func.id
         if name == 'past':
             # past(x, tau): handled by the model through the special hook
-            return fn['past'](n.args[0].id, _ev(n.args[1], look, fn))
+            return fn['past'](n.args[0].id, _ev(n.args[1], look, fn, jit))
         if name not in fn and '__varcall__' in fn:
             # x(t - tau): value of variable x at the (absolute) time given by the argument
-            return fn['__varcall__'](name, _ev(n.args[0], look, fn))
-        args = [_ev(a, look, fn) for a in n.args]
+            return fn['__varcall__'](name, _ev(n.args[0], look, fn, jit))
+        args = [_ev(a, look, fn, jit) for a in n.args]
         return fn[name](*args)
     if isinstance(n, ast.Subscript):
-        v = _ev(n.value, look, fn)
+        v = _ev(n.value, look, fn, jit)
         return v[_ev(n.slice, look, fn)]
     if isinstance(n, ast.Tuple):
-        return tuple(_ev(e, look, fn) for e in n.elts)
+        return tuple(_ev(e, look, fn, jit) for e in n.elts)
     raise ValueError(f'unsupported syntax {type(n).__name__}')
 
 
@@ -152,3 +190,5 @@ def selftest():
     assert split_equation("z = c*x") == ('alg', 'z', 'c*x')
     assert names_in('sin(r) + rr*sin') == ['r', 'rr', 'sin']
     assert evaluate('index(v, 1) + vsum(v)', {'v': np.array([1., 2., 4.])}) == 9.0
+    assert conditioning('r + rr*2.5', e) < 1e-12 and conditioning('cos(r*sinh(2.5^4))', e) > 1e-6
+    assert conditioning('sqrt(sin(pi))', e) == float('inf') or conditioning('sqrt(sin(pi))', e) > 1e-9
